@@ -7,6 +7,18 @@ use opcua::types::*;
 pub struct Filler<'a> {
     data: &'a [u8],
     pos: usize,
+    /// DateTime values restricted to millisecond precision
+    pub ms_dates: bool,
+    /// NodeId string / byte string identifiers never empty or null, also in nested positions
+    pub nonempty_ids: bool,
+    /// never generate Variant arrays
+    pub no_arrays: bool,
+    /// never generate non-finite floats
+    pub finite_floats: bool,
+    /// Variants never hold ExtensionObject or DiagnosticInfo values
+    pub no_ext_diag: bool,
+    /// an ExpandedNodeId with a namespace URI gets namespace index 0 (text and JSON forms carry one or the other)
+    pub uri_replaces_index: bool,
 }
 
 pub const RESERVED_ALPHABET: &[&str] = &[
@@ -16,7 +28,7 @@ pub const RESERVED_ALPHABET: &[&str] = &[
 
 impl<'a> Filler<'a> {
     pub fn new(data: &'a [u8]) -> Filler<'a> {
-        Filler { data, pos: 0 }
+        Filler { data, pos: 0, ms_dates: false, nonempty_ids: false, no_arrays: false, finite_floats: false, uri_replaces_index: false, no_ext_diag: false }
     }
     pub fn exhausted(&self) -> bool {
         self.pos >= self.data.len()
@@ -179,7 +191,7 @@ impl<'a> Filler<'a> {
             1 => self.u32() as i64,
             _ => ((self.u64() >> 1) as i64) % (end + 1),
         };
-        DateTime::from(t)
+        DateTime::from(if self.ms_dates { t - t % 10_000 } else { t })
     }
     /// any tick count, including the out-of-range classes (<0, >endtimes, i64::MAX)
     pub fn date_time_ticks_any(&mut self) -> i64 {
@@ -209,6 +221,7 @@ impl<'a> Filler<'a> {
     }
     /// NodeId with the given constraint on emptiness of string/bytestring identifiers
     pub fn node_id(&mut self, allow_empty: bool) -> NodeId {
+        let allow_empty = allow_empty && !self.nonempty_ids;
         let ns = self.namespace();
         match self.below(6) {
             0 | 1 => {
@@ -263,6 +276,10 @@ impl<'a> Filler<'a> {
             1 => 1 + self.u8() as u32,
             _ => self.u32_biased(),
         };
+        let mut node_id = node_id;
+        if self.uri_replaces_index && !namespace_uri.is_empty() {
+            node_id.namespace = 0;
+        }
         ExpandedNodeId { node_id, namespace_uri, server_index }
     }
     pub fn qualified_name(&mut self) -> QualifiedName {
@@ -330,6 +347,7 @@ impl<'a> Filler<'a> {
     pub const SCALAR_KINDS: usize = 25;
     /// scalar variant of kind k (0..25); nested kinds bounded by depth
     pub fn scalar_of_kind(&mut self, k: usize, depth: usize) -> Variant {
+        let k = if self.no_ext_diag && (k == 21 || k == 24) { 5 } else { k };
         match k {
             0 => Variant::Boolean(self.bool()),
             1 => Variant::SByte(self.i64_biased() as i8),
@@ -340,8 +358,8 @@ impl<'a> Filler<'a> {
             6 => Variant::UInt32(self.u64_biased() as u32),
             7 => Variant::Int64(self.i64_biased()),
             8 => Variant::UInt64(self.u64_biased()),
-            9 => Variant::Float(self.f32_biased(true)),
-            10 => Variant::Double(self.f64_biased(true)),
+            9 => Variant::Float(self.f32_biased(!self.finite_floats)),
+            10 => Variant::Double(self.f64_biased(!self.finite_floats)),
             11 => Variant::String(self.ua_string()),
             12 => Variant::DateTime(Box::new(self.date_time_in_range())),
             13 => Variant::Guid(Box::new(self.guid())),
@@ -368,6 +386,10 @@ impl<'a> Filler<'a> {
         match self.below(8) {
             0 => Variant::Empty,
             1..=4 => {
+                let k = self.below(Self::SCALAR_KINDS);
+                self.scalar_of_kind(k, depth)
+            }
+            _ if self.no_arrays => {
                 let k = self.below(Self::SCALAR_KINDS);
                 self.scalar_of_kind(k, depth)
             }
